@@ -178,6 +178,8 @@ def _zi(x):
         return z3.IntVal(int(x))
     if isinstance(x, int):
         return z3.IntVal(x)
+    if isinstance(x, float) and x == x and x not in (float("inf"), float("-inf")):
+        return z3.RealVal(repr(x))  # comparisons of a symbolic integer with a float literal (z3 coerces Int to Real)
     return None
 
 
